@@ -98,6 +98,11 @@ package environment
 //@   [C10] on call .SetRuntimeVar when arg0 == "run_end_time_ms" : assert arg1 == "" || (readKey == "run_end_time_ms" && readEmpty)
 //@   on call (*Environment).handleHooksWithPositiveWeights : assert phase == 1 ; phase = 2
 //@   on store environment.Environment.currentRunNumber : assert phase == 2 && value == 0 && isStop ; rnDropped = true
+// C09 (a critical failure at enter_<state> is reported to the caller - also when after_<event> fails too): what is handed
+// to Cancel here includes the error the event already carries; Cancel REPLACES the event's error
+//@   ghostvar prior bool = false
+//@   [C09] on call errors.Join : prior = prior || (len(arg0) > 0 && arg0[0] == e.Err)
+//@   [C09] on call (*fsm.Event).Cancel : assert prior
 //@   ensures phase == 2
 //@   ensures isStop ==> rnDropped
 
